@@ -1,7 +1,7 @@
 #!/bin/bash
 # confirm every finished seed (patch.diff + demo.py + meta.json present) that is not yet confirmed; 3 at a time
 cd /verif
-jobs_running() { jobs -r | wc -l; }
+jobs_running() { jobs -rp | wc -l; }
 for p in /tmp/seed/c*/_seed/m* /tmp/seed2/c*/_seed/m* /tmp/seed3/c*/_seed/m* /tmp/seed4/c*/_seed/m* /tmp/seed5/c*/_seed/m*; do
   [ -f $p/patch.diff ] && [ -f $p/demo.py ] && [ -f $p/meta.json ] || continue
   prop=$(basename $(dirname $(dirname $p))); m=$(basename $p); name=${prop^^}-$m
